@@ -199,10 +199,17 @@ def _falsy_is_legit(ci, pname):
         if arg.arg == pname and d is not None:
             if isinstance(d, (ast.List, ast.Dict, ast.Tuple, ast.Set)) and not (getattr(d, 'elts', None) or getattr(d, 'keys', None)):
                 return True
+    # ... or `kwargs.pop('<name>', {})` inside __init__
+    for n in ast.walk(init.node):
+        if isinstance(n, ast.Call) and isinstance(n.func, ast.Attribute) and n.func.attr in ('pop', 'get') and len(n.args) == 2 \
+                and isinstance(n.args[0], ast.Constant) and n.args[0].value == pname:
+            d = n.args[1]
+            if isinstance(d, (ast.List, ast.Dict, ast.Tuple, ast.Set)) and not (getattr(d, 'elts', None) or getattr(d, 'keys', None)):
+                return True
     return False
 
 
-def rule_replace_and_slots(check, rule, classes=UPGRADED):
+def rule_replace_and_slots(check, rule, classes=UPGRADED, only_base_overrides=False):
     """C11.R1 / C14.R3: replace() and __init__ re-establish every added slot"""
     repo = check.repo
     for cname in classes:
@@ -210,7 +217,7 @@ def rule_replace_and_slots(check, rule, classes=UPGRADED):
         slots = added_slots(ci)
         if not slots:
             raise Inconclusive('%s: __slots__ extension not found' % cname)
-        for mname in ('replace', '__init__'):
+        for mname in (() if only_base_overrides else ('replace', '__init__')):
             m = ci.methods.get(mname)
             if m is None:
                 check.violation(rule, '%s:%d' % (ci.module.relpath, ci.node.lineno), '%s does not define %s although it adds slots %s'
@@ -278,6 +285,8 @@ def rule_replace_and_slots(check, rule, classes=UPGRADED):
                         truthy_sel = None
                         if v[0] == 'B' and v[1] == 'or' and v[2][0] == 'P' and v[2] != selft:
                             truthy_sel = v[2]
+                        if v[0] == 'B' and v[1] == 'or' and v[2][0] == 'M' and v[2][2] in ('pop', 'get') and v[2][3] and v[2][3][0][0] == 'K':
+                            truthy_sel = ('P', v[2][3][0][1])      # `kwargs.pop('sources', None) or self.sources`
                         if v[0] == 'IF' and v[1][0] == 'lit' and v[1][1][0] == 'truthy' and v[1][1][1][0] == 'P' and v[1][1][1] != selft:
                             truthy_sel = v[1][1][1]
                         for atom, pol in p.lits:
@@ -371,7 +380,7 @@ def rule_replace_and_slots(check, rule, classes=UPGRADED):
             if not seenb:
                 check.holds(rule, site_of(m, m.node), '%s.replace hands base-class overrides on without testing them for None/emptiness' % cname,
                             key='%s|replace|base-override' % ci.key)
-        if m is not None:
+        if m is not None and not only_base_overrides:
             it = Interp(repo, Policy(try_forks=True))
             paths = it.run(m)
             selft = ('P', m.params()[0][0])
@@ -808,3 +817,39 @@ def rule_upgrade_idempotent(check, rule):
                             '(mixed parameter lists in replace(parameters=...) / UpgradedSignature(...)) is rebuilt from the empty function and '
                             'sources of that call and loses its provenance and upgraded annotation' % cname, key=key,
                             witness='sig.replace(parameters=[*sig.parameters.values(), inspect.Parameter(...)]) keeps the old parameters intact')
+
+
+def rule_sibling_eq(check, rule):
+    """C14.R1s: sibling agreement on equality.  When a package class defines a value-based `__eq__` for a whole family
+    (UpgradedAnnotation: equal iff the source values are), a subclass that overrides `__eq__` with a relation of its own
+    makes `a == b` depend on which operand is on the left: Python asks the left operand first (the right one only when it is
+    a subclass of the left's class), and the siblings answer differently.  Also covers `eq=True`-style generated
+    comparisons: attr.define must be `eq=False` for the family."""
+    repo = check.repo
+    n = 0
+    for m in repo.modules.values():
+        for ci in m.classes.values():
+            fam = None
+            for r in repo.class_bases(ci):
+                if r[0] == 'class' and '__eq__' in r[1].methods:
+                    fam = r[1]
+            if fam is None:
+                continue
+            n += 1
+            key = '%s|sibling-eq' % ci.key
+            st = '%s:%d %s' % (ci.module.relpath, ci.node.lineno, ci.key)
+            own = ci.methods.get('__eq__')
+            gen = [d for d in ci.node.decorator_list if isinstance(d, ast.Call) and norm(d.func).split('.')[-1] in ('define', 's', 'attrs', 'dataclass')
+                   and not any(k.arg == 'eq' and isinstance(k.value, ast.Constant) and k.value.value is False for k in d.keywords)]
+            gen += [d for d in ci.node.decorator_list if not isinstance(d, ast.Call) and norm(d).split('.')[-1] in ('define', 's', 'attrs', 'dataclass')]
+            if own is not None and not any(isinstance(x, ast.Attribute) and x.attr == '__eq__' for x in ast.walk(own.node)):
+                check.violation(rule, site_of(own, own.node), '%s overrides the family\'s value-based __eq__ (%s.__eq__) with a relation of its own: '
+                                'x == y and y == x differ whenever x is a %s and y a sibling with an equal value'
+                                % (ci.name, fam.name, ci.name), key=key,
+                                witness='sig == sig.evaluated() is False while sig.evaluated() == sig is True (un-annotated parameter)')
+            elif gen:
+                check.violation(rule, st, '%s gets a generated __eq__ (%s without eq=False) that replaces the family\'s value-based one' % (ci.name, norm(gen[0])[:40]),
+                                key=key, witness='a postponed and a pre-evaluated annotation with the same value compare unequal one way round')
+            else:
+                check.holds(rule, st, '%s keeps the value-based __eq__ of %s' % (ci.name, fam.name), key=key)
+    check.floor(rule, 'subclasses of a package class defining __eq__', n, 3)
